@@ -25,6 +25,7 @@ import sys
 import types
 from itertools import zip_longest
 import itertools
+import keyword
 import collections
 from functools import partial
 import typing
@@ -362,8 +363,13 @@ def signature(obj):
     if isinstance(obj, partial):
         sig = _util.funcsigs.signature(obj.func)
         sig = set_default_sources(sig, obj.func)
+        # keywords that cannot be parameter names ({'class': ...}) can only
+        # have gone to **kwargs, where they stay invisible
+        keywords = dict(
+            (name, value) for name, value in (obj.keywords or {}).items()
+            if name.isidentifier() and not keyword.iskeyword(name))
         return _mask(sig, len(obj.args), False, False, False, False,
-                     obj.keywords or {}, obj)
+                     keywords, obj)
     sig =_util.funcsigs.signature(obj)
     return set_default_sources(sig, obj)
 
